@@ -4,6 +4,7 @@ import itertools
 import numpy as np
 
 from vf.rec import rng_for, relerr
+from vf import gen
 
 RULE = ("random/point-mass/bimodal/p(0)=0/deep coverage distributions over depths 0..80, n_sequenced 2..20 (even), even "
         "n_sub <= n, F in {0} u (0,1), 1-3 populations, sim_threshold in {0, 1e-2, 1}; partitions against brute-force "
@@ -19,13 +20,14 @@ def plan(tier, seed):
             {"name": "matrices", "kind": "matrices", "n": 40 if q else 400, "timeout": 1800},
             {"name": "model-1", "kind": "model", "n": 6 if q else 24, "b": 0, "timeout": 2400},
             {"name": "model-2", "kind": "model", "n": 6 if q else 24, "b": 1, "timeout": 2400},
-            {"name": "model-3", "kind": "model", "n": 6 if q else 24, "b": 2, "timeout": 2400}]
+            {"name": "model-3", "kind": "model", "n": 6 if q else 24, "b": 2, "timeout": 2400},
+            {"name": "simsub", "kind": "simsub", "n": 4 if q else 12, "timeout": 2400}]
 
 
 def required(tier):
     return {"partition-probs-sum-one": 30, "partitions-all-and-only": 30, "projection-row-stochastic": 40,
             "calling-error-row-stochastic": 40, "no-call-in-unit-interval": 40, "F-to-0-continuous": 10,
-            "corrected-not-more-sites": 5, "deep-coverage-equals-projection": 3, "enough-covered-in-unit-interval": 40}
+            "corrected-not-more-sites": 5, "simulated-subsampling-unbiased": 4, "deep-coverage-equals-projection": 3, "enough-covered-in-unit-interval": 40}
 
 
 def covdist(rng, kind=None, maxd=None):
@@ -51,10 +53,46 @@ def covdist(rng, kind=None, maxd=None):
     return np.array([np.arange(len(p)), p]), kind
 
 
+def run_simsub(spec, rec, dadi, LP):
+    """simulated regime with fewer individuals kept than sequenced, at deep coverage: every call is certain, so the only thing
+    simulated is *which* individuals are kept, and the corrected model must equal the plain projection up to Monte-Carlo noise
+    (each source entry is estimated from nsim independent draws; a bound of 6 standard errors is used)"""
+    func, params = dadi.Demographics1D.two_epoch, [2.0, 0.1]
+    for ci in range(spec["n"]):
+        rng = rng_for(spec["seed"], "C18simsub", ci)
+        nseq = int(rng.choice([8, 10, 12]))
+        nsub = int(rng.choice(range(2, nseq, 2)))
+        nsim = 1000
+        cds = {"pop0": covdist(rng, "deep")[0]}
+        if not rec.case("simsub-%d" % ci, {"nseq": nseq, "nsub": nsub, "nsim": nsim}, nontrivial=True):
+            continue
+        tags = {"nseq": nseq, "nsub": nsub}
+        site = "LowPass.make_low_pass_func_GATK_multisample"
+        np.random.seed(int(rng.integers(2 ** 31)))
+        ok, lf = rec.noraise("lowpass-returns", lambda: LP.make_low_pass_func_GATK_multisample(func, cds, ["pop0"], nseq=[nseq], nsub=[nsub], sim_threshold=0.0, Fx=None, nsim=nsim),
+                             site=site, tags=tags)
+        if not ok:
+            continue
+        ok, m = rec.noraise("lowpass-returns", lambda: lf(params, [nsub], 30), site=site, tags=tags)
+        if not ok:
+            continue
+        full = func(params, [nseq], 30)
+        plain = np.asarray(full.project([nsub]).data)[1:-1]
+        got = np.asarray(m.data, float)[1:-1]
+        # standard error of entry j: sqrt(sum_i model_i^2 P_ij (1 - P_ij) / nsim), P the exact hypergeometric weights
+        W = gen.hyper_matrix(nseq, nsub)[1:-1, :]
+        mod = np.where(np.asarray(full.mask), 0.0, np.asarray(full.data))
+        se = np.sqrt((W * (1 - W)) @ (mod ** 2) / nsim)
+        z = float(np.max(np.abs(got - plain) / np.maximum(se, 1e-12 * np.max(plain))))
+        rec.close("simulated-subsampling-unbiased", z, 6.0, site=site, tags=tags, observed={"max_z": z, "max_abs_err_over_max": float(np.max(np.abs(got - plain)) / np.max(plain))})
+
+
 def run(spec, rec):
     import dadi
     from dadi.LowPass import LowPass as LP
     kind = spec["kind"]
+    if kind == "simsub":
+        return run_simsub(spec, rec, dadi, LP)
     if kind == "partitions":
         for n in range(2, spec["nmax"] + 1, 2):
             brute = {}
